@@ -36,7 +36,12 @@ def opening_stream(ctx):
         lay = prefix.layout(mem)
         # archive ends: a trailer (2 blocks) follows the last member of every call
         rec_ends = [l[4] for l in lay]
-        aligned = sorted(set([full] + [((l[4] + 511) // 512) * 512 for l in lay] + [((l[4] + 511) // 512 + 2) * 512 for l in lay if ((l[4] + 511) // 512 + 2) * 512 <= full]))
+        # behind a member, and behind the trailer that follows it - where one follows (the members of one batched Archive call
+        # are written back to back: two blocks behind such a member lie inside the next member's header group, a torn cut)
+        starts = [l[0] * 512 for l in lay] + [None]
+        aligned = sorted(set([full] + [((l[4] + 511) // 512) * 512 for l in lay] +
+                             [((l[4] + 511) // 512 + 2) * 512 for l, nxt in zip(lay, starts[1:])
+                              if ((l[4] + 511) // 512 + 2) * 512 <= full and (nxt is None or nxt >= ((l[4] + 511) // 512 + 2) * 512)]))
         torn = []
         for l in lay[1:]:
             torn += [l[0] * 512 + 100, l[3] - 1, l[3]]          # inside the header group, just before / at its end
